@@ -608,13 +608,23 @@ func (h *c14) endToEnd(t *testing.T, mode string, hoffman bool, piece uint32, pr
 // multiFile: fetches that span several files (and a padding file) of a
 // multi-file torrent, through the real maybeWebseed -> webseedGR -> GetRight.Get.
 func (h *c14) multiFile(t *testing.T, mode string, chunk int, eofData bool) {
+	h.multiFileLayout(t, mode, chunk, 32768, "a:100 .pad/1:16284(padding) d/b:40000 c:9152",
+		[]fixture.File{{Path: []string{"a"}, Length: 100}, {Path: []string{".pad", "1"}, Length: 16284, Padding: true}, {Path: []string{"d", "b"}, Length: 40000}, {Path: []string{"c"}, Length: 9152}})
+	// real data followed, in the same fetch, by a padding file larger than a block (and than one read)
+	// (a body longer than the writer's 32 KiB buffer, so that the buffer is full of
+	// earlier file data when the padding's zeros are read into it)
+	h.multiFileLayout(t, mode, chunk, 65536, "64 KiB pieces: a:40000 .pad/2:25536(padding) b:65536",
+		[]fixture.File{{Path: []string{"a"}, Length: 40000}, {Path: []string{".pad", "2"}, Length: 25536, Padding: true}, {Path: []string{"b"}, Length: 65536}})
+}
+
+func (h *c14) multiFileLayout(t *testing.T, mode string, chunk int, psize int, layoutDesc string, files []fixture.File) {
+	bpp := psize / 16384 // blocks per piece (the layouts fill two whole pieces)
 	h.res.Add("evaluations", 1)
 	synctest.Test(t, func(t *testing.T) {
 		peer.VerifReset()
 		config.DefaultUseWebseeds = true
 		config.PrefetchRate = 768 * 1024
-		files := []fixture.File{{Path: []string{"a"}, Length: 100}, {Path: []string{".pad", "1"}, Length: 16284, Padding: true}, {Path: []string{"d", "b"}, Length: 40000}, {Path: []string{"c"}, Length: 9152}}
-		meta, truth := fixture.Metainfo("mf", files, 32768, nil)
+		meta, truth := fixture.Metainfo("mf", files, psize, nil)
 		tor, err := ReadTorrent("", bytes.NewReader(meta))
 		if err != nil {
 			panic(err)
@@ -635,7 +645,7 @@ func (h *c14) multiFile(t *testing.T, mode string, chunk int, eofData bool) {
 		ws := webseed.New("http://seed.example/f", true)
 		tor.webseeds = []webseed.Webseed{ws}
 		ctx := context.Background()
-		where := fmt.Sprintf("[multi-file layout a:100 .pad/1:16284(padding) d/b:40000 c:9152, server %s, body chunking %d]", mode, chunk)
+		where := fmt.Sprintf("[multi-file layout %s, server %s, body chunking %d]", layoutDesc, mode, chunk)
 		firstRound := map[uint32]int{}
 		for piece := uint32(0); piece < 2; piece++ {
 			for round := 0; round < 3; round++ {
@@ -687,24 +697,23 @@ func (h *c14) multiFile(t *testing.T, mode string, chunk int, eofData bool) {
 		}
 		// whatever was stored is the true content, at the right place
 		for piece := uint32(0); piece < 2; piece++ {
-			s := int64(piece) * 32768
+			s := int64(piece) * int64(psize)
 			_, bm := tor.Pieces.PieceBitmap(piece)
 			stored := bm.Count()
-			tor.Pieces.AddData(piece, 0, append([]byte{}, truth[s:s+32768]...), ^uint32(0))
+			tor.Pieces.AddData(piece, 0, append([]byte{}, truth[s:s+int64(psize)]...), ^uint32(0))
 			if done, _, err := tor.Pieces.Finalise(piece, tor.PieceHashes[piece]); !done && mode != "body-garbage" {
 				h.viol("C14/multifile-stored-wrong-bytes", "piece %d: after completing it with true data its hash does not match: the fetch stored wrong or misplaced bytes (%v; %d blocks had been stored) %s", piece, err, stored, where)
 			}
-			if mode == "honoured" && firstRound[piece] != 2 {
-				h.viol("C14/multifile-drops-delivered-data", "an honest server delivered the whole of piece %d in the first fetch, %d of 2 blocks were stored by it %s", piece, firstRound[piece], where)
+			if mode == "honoured" && firstRound[piece] != bpp {
+				h.viol("C14/multifile-drops-delivered-data", "an honest server delivered the whole of piece %d in the first fetch, %d of %d blocks were stored by it %s", piece, firstRound[piece], bpp, where)
 			}
-			if mode == "honoured" && stored != 2 {
-				h.viol("C14/multifile-incomplete", "an honest server was asked for piece %d three times and only %d of 2 blocks were stored %s", piece, stored, where)
+			if mode == "honoured" && stored != bpp {
+				h.viol("C14/multifile-incomplete", "an honest server was asked for piece %d three times and only %d of %d blocks were stored %s", piece, stored, bpp, where)
 			}
 		}
 		tor.Pieces.Del()
-		h.nontriv[fmt.Sprintf("mf/%s/%d/%d", mode, chunk, len(reqs))] = true
+		h.nontriv[fmt.Sprintf("mf/%d/%s/%d/%d", psize, mode, chunk, len(reqs))] = true
 	})
-	_ = eofData
 }
 
 // bigFetches: ten successive fetches into 4 MiB pieces from an honest server;
